@@ -22,7 +22,8 @@
 EXTENDS PolyArray, Options, Monomial, TLC
 
 HasDen(v) == v.kind \in {"poly", "array"}
-MkReg(v) == [v |-> v, d |-> IF HasDen(v) /\ WellFormed(v) THEN Den(v) ELSE <<>>, dg |-> v.digest]
+DenDefined(v) == WellFormedClause(v) \notin {"wf_names", "wf_width", "wf_duplicate_rows", "wf_coef_count", "wf_coef_shape_dtype"}
+MkReg(v) == [v |-> v, d |-> IF HasDen(v) /\ DenDefined(v) THEN Den(v) ELSE <<>>, dg |-> v.digest]
 RangeOf(s) == {s[i] : i \in 1..Len(s)}
 
 \* ----------------------------------------------------------- result clauses
@@ -298,6 +299,62 @@ JIndex(ev, reg) ==
          ELSE IF r.vals = [i \in 1..Len(ev.indices) |-> BoolNum(InCross(ev.indices[i], ev.bound, ev.norm))]
               THEN "ok" ELSE "value"
 
+\* -------------------------------------------------- C02 evaluation / substitution
+\* ev.args[1]: the polynomial; ev.bind: <<[name |-> name id, arg |-> position in ev.args, how |-> "pos"|"kw"]>>
+\* for every SUPPLIED value (None placeholders are not listed)
+JCall(ev, reg) ==
+  LET v == reg[ev.args[1]].v
+      p == reg[ev.args[1]].d
+      pnames == IF v.kind = "poly" THEN RangeOf(v.names) ELSE {0}
+      Bd == ev.bind
+      unknown == \E i \in 1..Len(Bd) : Bd[i].name \notin pnames
+      doubled == \E i, j \in 1..Len(Bd) : i # j /\ Bd[i].name = Bd[j].name
+  IN IF unknown \/ doubled THEN ExpectRaise(ev, "TypeError")
+     ELSE LET argd(i) == reg[ev.args[Bd[i].arg]].d
+              T == BShape([i \in 1..Len(Bd) |-> argd(i).shape])
+              okb == BroadcastOK([i \in 1..Len(Bd) |-> argd(i).shape])
+              full == /\ pnames = {Bd[i].name : i \in 1..Len(Bd)}
+                      /\ \A i \in 1..Len(Bd) : DConst(argd(i))
+              np == Len(p.el)  nt == Size(T)
+              want == [shape |-> p.shape \o T,
+                       el |-> [k \in 1..(np * nt) |->
+                          LET ip == 1 + ((k - 1) \div nt)  it == 1 + ((k - 1) % nt)
+                              sub == [n \in {Bd[i].name : i \in 1..Len(Bd)} |->
+                                        LET i == CHOOSE x \in 1..Len(Bd) : Bd[x].name = n
+                                        IN argd(i).el[BSrc(it, T, argd(i).shape)]]
+                          IN ESubst(p.el[ip], sub)]]
+          IN IF ~okb THEN "ok"
+             ELSE ExpectDen(ev, IF full THEN "array" ELSE "any", want)
+
+\* --------------------------------------------- C06 derivative, gradient, Hessian
+\* ev.vars: <<[kind |-> "index", i |-> 0-based position] | [kind |-> "name", id |-> name id]>>
+VarName(x, names) == IF x.kind = "index" THEN names[x.i + 1] ELSE x.id
+RECURSIVE DerivSeq(_, _)
+DerivSeq(f, ns) == IF ns = <<>> THEN f ELSE DerivSeq(EDeriv(f, Head(ns)), Tail(ns))
+JDeriv(ev, reg) ==
+  LET v == reg[ev.args[1]].v
+      a == reg[ev.args[1]].d
+      names == IF v.kind = "poly" THEN v.names ELSE <<0>>
+      D == Len(names)
+      n == Len(a.el)
+  IN CASE ev.fn = "derivative" ->
+            IF \E i \in 1..Len(ev.vars) :
+                   (ev.vars[i].kind = "index" /\ ev.vars[i].i \notin 0..(D - 1))
+                   \/ (ev.vars[i].kind = "name" /\ ev.vars[i].id \notin RangeOf(names))
+            THEN "ok"        \* a variable the polynomial does not have: nothing is claimed
+            ELSE LET ns == [i \in 1..Len(ev.vars) |-> VarName(ev.vars[i], names)]
+                 IN ExpectDen(ev, "poly", Lift1(LAMBDA f : DerivSeq(f, ns), a))
+       [] ev.fn = "gradient" ->
+            ExpectDen(ev, "poly", [shape |-> <<D>> \o a.shape,
+                                   el |-> [k \in 1..(D * n) |->
+                                             EDeriv(a.el[1 + ((k - 1) % n)], names[1 + ((k - 1) \div n)])]])
+       [] ev.fn = "hessian" ->
+            ExpectDen(ev, "poly", [shape |-> <<D, D>> \o a.shape,
+                                   el |-> [k \in 1..(D * D * n) |->
+                                             LET i == (k - 1) \div (D * n)
+                                                 j == ((k - 1) \div n) % D
+                                             IN EDeriv(EDeriv(a.el[1 + ((k - 1) % n)], names[j + 1]), names[i + 1])]])
+
 \* -------------------------------------------------------------- C14 options
 OptAct(ev) == ev.act \in {"set_options", "enter", "exit", "exit_exc", "get_mutate", "get_defaults"}
 NextOpts(ev, opts, ctx) ==
@@ -319,7 +376,7 @@ JOption(ev, opts, ctx) ==
     [] ev.act = "get_defaults" -> IF ev.out = "ret" /\ ev.seen = DefaultOptions THEN "ok" ELSE "defaults"
 
 \* ------------------------------------------------------------------ dispatch
-NeedsDen(ev) == ev.act \in {"arith", "unary", "move", "reduce", "compare", "extreme", "lead", "tonumpy", "todict", "decompose", "set_dimensions"}
+NeedsDen(ev) == ev.act \in {"arith", "unary", "move", "reduce", "call", "deriv", "compare", "extreme", "lead", "tonumpy", "todict", "decompose", "set_dimensions"}
 Own(ev, reg, opts, ctx) ==
   CASE ev.act = "new" -> "ok"
     [] \E i \in 1..Len(ev.args) : ev.args[i] \notin 1..Len(reg) -> "machinery_operand"
@@ -328,6 +385,8 @@ Own(ev, reg, opts, ctx) ==
     [] ev.act = "unary" -> JUnary(ev, reg)
     [] ev.act = "move" -> JMove(ev, reg, opts)
     [] ev.act = "reduce" -> JReduce(ev, reg)
+    [] ev.act = "call" -> JCall(ev, reg)
+    [] ev.act = "deriv" -> JDeriv(ev, reg)
     [] ev.act = "compare" -> JCompare(ev, reg, opts)
     [] ev.act = "extreme" -> JExtreme(ev, reg, opts)
     [] ev.act = "lead" -> JLead(ev, reg, opts)
@@ -355,10 +414,12 @@ Judge(ev, reg, opts, ctx) ==
   LET wf == WfAll(ev)
   IN [wf |-> wf,
       poison |-> PoisonAll(ev),
-      own |-> IF wf = "ok" THEN Own(ev, reg, opts, ctx) ELSE "ok",
+      own |-> IF wf \in {"wf_names", "wf_width", "wf_duplicate_rows", "wf_coef_count", "wf_coef_shape_dtype"}
+              THEN "ok" ELSE Own(ev, reg, opts, ctx),
       frame |-> FrameAll(ev, reg),
       options |-> OptionsAll(ev, opts, ctx),
-      abort |-> wf # "ok"]
+      \* only defects that make the denotation of the result undefined end the trace
+      abort |-> wf \in {"wf_names", "wf_width", "wf_duplicate_rows", "wf_coef_count", "wf_coef_shape_dtype"}]
 
 NextReg(ev, reg) ==
   LET upd == [i \in 1..Len(reg) |-> IF i \in RangeOf(ev.targets)
